@@ -41,6 +41,23 @@ fn p_call_closure() {
     kani::cover!(route % 3 == 2, "route 2");
 }
 #[kani::proof]
+fn p_call_after_stop() {
+    // a stop answer ends ONE feed; the callback itself stays usable: a later call / feed reaches the closure again
+    let (a, b, c): (u32, u32, u32) = kani::any();
+    let mut seen = [0u32; 4];
+    let mut n = 0usize;
+    let mut f = |v: u32| { if n < 4 { seen[n] = v; } n += 1; v % 2 == 0 };
+    let mut cb: OpaqueCallback<u32> = (&mut f).into();
+    let r1 = cb.call(a);
+    let r2 = cb.call(b);
+    let cnt = [c, c ^ 1].iter().copied().feed_into_mut(&mut cb);
+    drop(cb);
+    assert!(r1 == (a % 2 == 0) && r2 == (b % 2 == 0), "C15 every call returns the closure's own answer, also after an earlier false");
+    assert!(seen[0] == a && seen[1] == b && seen[2] == c, "C15 the closure is invoked for every call, also after it once answered false");
+    assert!(cnt == if c % 2 == 0 { 2 } else { 1 } && n == 2 + cnt, "C15 a later feed offers items again until told to stop");
+    kani::cover!(a % 2 == 1 && b % 2 == 0, "stop then continue");
+}
+#[kani::proof]
 fn p_call_moves_item_once() {
     let v: u32 = kani::any();
     let keep: bool = kani::any();
